@@ -34,7 +34,9 @@ RULE = ("scripts of 6..45 operations: schedule calls (delays 1..200 ms plus the 
         "large jumps that make several events late at once, zero), clear at arbitrary moments, and clear() from a SECOND "
         "thread while the callback of a repeating event is kept from returning (W: the call must block on the spin lock until "
         "the callback has returned and the event is re-queued, and must then remove it); classes aimed at ties, repeats that "
-        "stop on false, clears, boundaries, lateness, clear-during-callback. After each action the real thread is run to quiescence. "
+        "stop on false, clears, boundaries, lateness, clear-during-callback, and wake-ups in which several events are due and the "
+        "callbacks of the earlier ones take several ms of (virtual) clock time while a later one repeats (the loop reads the clock "
+        "per pass, so that event is re-armed from the time of its own run). After each action the real thread is run to quiescence. "
         "non-trivial = at least two callback runs observed; distinct = distinct case lines")
 
 MS = 1000000
@@ -58,13 +60,15 @@ class Script:
         self.now = t0
         self.ops = []
         self.res = []
+        self.durs = []        # clock time (ns) each callback's run takes
         self.dues = []        # (approximate) pending due times, to aim advances at them
 
-    def sched(self, rep, ms, results=""):
+    def sched(self, rep, ms, results="", dur=0):
         if len(self.res) >= 64:
             return
         self.ops.append("S%d:%d" % (1 if rep else 0, ms))
         self.res.append(results)
+        self.durs.append(dur)
         if ms:
             self.dues.append(self.now + ms * MS)
             if rep:
@@ -95,7 +99,10 @@ class Script:
 
     def line(self):
         rs = ",".join(r or "-" for r in self.res) or "-"
-        return "%d %s %s" % (self.t0, rs, ",".join(self.ops))
+        line = "%d %s %s" % (self.t0, rs, ",".join(self.ops))
+        if any(self.durs):
+            line += " " + ",".join(str(d) for d in self.durs)
+        return line
 
 
 def results(rng):
@@ -191,6 +198,30 @@ def gen_one(rng, cls):
             s.adv(rng.randrange(20, 300) * MS + rng.randrange(0, MS))
             if rng.random() < 0.3:
                 s.sched(rng.random() < 0.5, rand_ms(rng), results(rng))
+    elif cls == "slow":
+        # several events due in ONE wake-up; the callbacks of the earlier ones take several ms of clock time (more than the
+        # poll granularity), a later one repeats: it must be re-armed from the clock value of its own run
+        ms = rng.randrange(2, 30)
+        nslow = rng.randrange(1, 4)
+        for _ in range(nslow):
+            s.sched(rng.random() < 0.2, rng.choice([ms, ms, max(1, ms - 1)]), rng.choice(["", "T", "F"]),
+                    rng.choice([2, 3, 5, 8, 13]) * MS + rng.choice([0, 0, 1, 250000]))
+        for _ in range(rng.randrange(1, 4)):
+            s.sched(True, rng.choice([ms, ms, ms + 1]) if rng.random() < 0.8 else rand_ms(rng), rng.choice(["TTTT", "TT", "TTF", "T"]),
+                    rng.choice([0, 0, 0, 1 * MS, 4 * MS]))
+        if rng.random() < 0.3:
+            s.sched(False, ms, "", 0)
+        s.adv((ms + rng.choice([0, 0, 1, 2])) * MS)          # all of them fall due in this wake-up
+        for _ in range(rng.randrange(3, 9)):
+            r = rng.random()
+            if r < 0.5:
+                s.adv(rng.choice([1, 2, 3, 5]) * MS)          # small steps: is the re-armed event back too early?
+            elif r < 0.8:
+                s.adv(ms * MS - rng.choice([0, 1, 1 * MS, 2 * MS]))
+            elif r < 0.9:
+                s.adv(rand_adv(rng))
+            else:
+                s.sched(rng.random() < 0.5, rand_ms(rng), results(rng), rng.choice([0, 3 * MS]))
     elif cls == "park":
         # a repeating event whose callback is kept from returning while another thread calls clear()
         for _ in range(rng.randrange(0, 3)):
@@ -250,7 +281,7 @@ def gen_one(rng, cls):
     return Case(s.line(), cls)
 
 
-CLASSES = ["ties", "repeat", "clear", "boundary", "late", "odd", "random", "park"]
+CLASSES = ["ties", "repeat", "clear", "boundary", "late", "odd", "slow", "park", "random", "slow"]
 
 
 def gen_cases(rng, tier):
@@ -258,6 +289,8 @@ def gen_cases(rng, tier):
     cs = [Case("1000000000 T,-,- S1:5,S0:5,S0:3,A5000000,A5000000,S0:2,C,A10000000", "fixed"),
           Case("0 TTF S1:1,A999999,A1,A1000000,A5000000,A1000000", "fixed"),
           Case("5 - S0:0,A1000000,S0:1,A1000000", "fixed"),
+          Case("0 -,TTT S0:10,S1:10,A10000000,A5000000,A4999999,A1 5000000,0", "slow"),
+          Case("1000000000 T,- S1:5,S0:5,A5000000,A5000000 0,3000000", "slow"),
           Case("1000000000 TTTT,- S1:5,S0:7,W0:5000000,A5000000,A5000000", "park"),
           Case("1000000000 TTTT,- S1:5,S0:7,W1:5000000,A5000000", "park"),
           Case("5 TT,T,- S1:3,S0:3,S0:3,W0:3000000,S0:2,A5000000", "park")]
@@ -278,15 +311,17 @@ def extra_search(rng, seeds, tier):
 
 
 def shrink(case):
-    t0, rs, ops = case.line.split()
+    parts = case.line.split()
+    t0, rs, ops = parts[:3]
+    tail = (" " + parts[3]) if len(parts) > 3 else ""
     ops = ops.split(",")
     out = []
     if len(ops) > 1:
         # drop trailing operations, then single non-schedule operations (schedule calls carry the callback numbering)
-        out.append(Case("%s %s %s" % (t0, rs, ",".join(ops[:-1])), "shrink"))
+        out.append(Case("%s %s %s%s" % (t0, rs, ",".join(ops[:-1]), tail), "shrink"))
         for i, o in enumerate(ops):
             if not o.startswith("S"):
-                out.append(Case("%s %s %s" % (t0, rs, ",".join(ops[:i] + ops[i + 1:])), "shrink"))
+                out.append(Case("%s %s %s%s" % (t0, rs, ",".join(ops[:i] + ops[i + 1:]), tail), "shrink"))
     return out
 
 
